@@ -378,6 +378,11 @@ class Folder:
             w = self.fold(expr.args[0], scope)
             if isinstance(w, int):
                 return PackerVal(w, obj.name == "IntegerN")
+        if kind == "ext" and obj == "operator.index" and len(expr.args) == 1 and not expr.keywords:
+            v = self.fold(expr.args[0], scope)
+            if isinstance(v, int):
+                return int(v)
+            raise Unfoldable("operator.index of a non-integer")
         if kind == "ext" and obj == "struct.calcsize" and len(expr.args) == 1:
             return _struct.calcsize(self.fold(expr.args[0], scope))
         if isinstance(fn, ast.Name) and fn.id == "range" and not expr.keywords:
